@@ -3,6 +3,7 @@
 From Coq Require Import List Bool Arith Reals Lra Sorted Permutation.
 Import ListNotations.
 From PS Require Import Num RLemmas Valid ModelKernels ModelFuncs ModelAPI Spec Lem_Multi Lem_MultiAPI.
+From PS Require Import Lem_API Lem_WF Lem_API2 Lem_API3 Lem_API4 Lem_API5 Lem_API7.
 Require Import PS.Props.PropTac.
 Local Open Scope R_scope.
 
@@ -124,6 +125,22 @@ Print Assumptions C06_spike_profile_is_mean_of_pairs.
 Theorem C06_spike_profile_breakpoints : forall (eps : R) (cy : bool) (m : R) (ri : bool) (l : list train) (ts te : R), (2 <= length l)%nat -> Forall (wtrain ts te) l -> exists P : pwl, spike_profile_multi ROps eps cy false m ri l None = Ok P /\ fst (fst P) = sort_unique ROps (concat (map (fun p : nat * nat => fst (fst (spike_profile_bi ROps eps cy false m ri (nth_train ROps l (fst p)) (nth_train ROps l (snd p))))) (pairs_of (seq 0 (length l))))) /\ ssorted (fst (fst P)).
 Proof. exact spike_multi_breakpoints. Qed.
 Print Assumptions C06_spike_profile_breakpoints.
+
+(* ---- from Lem_API7.v ---- *)
+Theorem C06_isi_distance_multi_mean_idx : forall eps cy m iv l idx ts te,
+  idx_ok (length l) idx -> Forall (vtrain ts te) l -> iv_ok ts te iv ->
+  isi_distance_multi ROps eps cy false m iv l idx
+  = Ok (pair_sum (isi_distance_bi ROps eps cy false m iv) l (ixs l idx)
+        / INR (length (pairs_of (ixs l idx)))).
+Proof. exact isi_distance_multi_mean_idx. Qed.
+Print Assumptions C06_isi_distance_multi_mean_idx.
+Theorem C06_spike_distance_multi_mean_idx : forall eps cy m ri iv l idx ts te,
+  idx_ok (length l) idx -> Forall (vtrain ts te) l -> iv_ok ts te iv ->
+  spike_distance_multi ROps eps cy false m ri iv l idx
+  = Ok (pair_sum (spike_distance_bi ROps eps cy false m ri iv) l (ixs l idx)
+        / INR (length (pairs_of (ixs l idx)))).
+Proof. exact spike_distance_multi_mean_idx. Qed.
+Print Assumptions C06_spike_distance_multi_mean_idx.
 
 Example C06_nonvacuous : Forall (mtrain 0 1) [([1/8; 1/2], 0, 1); ([1/8], 0, 1); ([], 0, 1); ([1/8; 1/2], 0, 1)].
 Proof. repeat (first [apply Forall_nil | apply Forall_cons]); unfold mtrain; cbn [tr_spikes tr_start tr_end fst snd]; repeat split; try lra; valid_tac. Qed.
